@@ -3,6 +3,7 @@ LC_HEADER = ('From LC Require Import Lib.Bytes Model.MountInfo Model.FsTree Mode
 PROP = dict(
     go='c16', n_quick=200, n_thorough=2000,
     coq_header=LC_HEADER,
+    referee='cdom', referee_quick=3, referee_thorough=40,
     case_type='LC.case', verdict='C16.verdict',
     rule='histories of mount/umount/rename/remove with packages/generated directories, export directives and foreign files, directories and symlinks in the export tree; non-trivial: some step acts',
     explanation='per step Coq evaluates: model step = observed step (result class, operation log, file tree, kernel table, '
